@@ -92,10 +92,11 @@ def run_seq(ck, tier, pid):
             vlib.tlc_expect_ok(r, "SeqMC")
             ck.mc("SeqMC", r, "all containers <= 2x2, offsets -1..1, histories of %d edits" % (2 if thorough else 1))
             if thorough:
-                cfg = mc_cfg(["multi", "qmulti", "aln"], 3, 2, 2, 1, inv)
-                r = vlib.tlc("Seq", "SeqMC", None, cfg_text=cfg, workers=16, timeout=3400)
-                vlib.tlc_expect_ok(r, "SeqMC(3 rows)")
-                ck.mc("SeqMC(3 rows)", r, "3 rows, offsets -1..2")
+                for kinds3, off3 in ((["multi", "aln"], 1), (["multi"], 2)):
+                    cfg = mc_cfg(kinds3, 3, 2, off3, 1, inv)
+                    r = vlib.tlc("Seq", "SeqMC", None, cfg_text=cfg, workers=16, timeout=3400)
+                    vlib.tlc_expect_ok(r, "SeqMC(3 rows)")
+                    ck.mc("SeqMC(3 rows, %s)" % "+".join(kinds3), r, "3 rows x 2 columns, offsets -1..%d, one edit" % off3)
         if pid == "C06":
             r = vlib.tlc("Seq", "SeqMC", "SeqPure.cfg", workers=4, timeout=1800)
             vlib.tlc_expect_ok(r, "SeqPure")
